@@ -137,7 +137,7 @@ Discard == /\ ph = "run" /\ m.mode = "oom"
 \* fingerprint only what is not a function of the commands consumed so far (the listing and its
 \* analysis are determined by ci and l)
 View == <<ci, l, ph, nint, hi, loose, m.mode, m.pc, m.vars, m.dims, m.deft, m.fns, m.ctl, m.dptr, m.col,
-          m.tron, m.ltr, m.cont, m.contx, m.ctlx, m.stale, m.inp, m.resp>>
+          m.tron, m.ltr, m.cont, m.contx, m.ctlx, m.stale, m.inp, m.resp, m.dgen>>
 
 Next == Feed \/ Run \/ Intr \/ Match \/ NextCase \/ Stuck \/ Discard
 Spec == Init /\ [][Next]_tvars
